@@ -155,4 +155,22 @@ CHECKS = {
         assumptions=["the inner conn is a datagram socket delivering one link-layer payload per read, as packet.Listen(Datagram) does"],
         exhaustive_note="all payload lengths 0..1500 on the write side",
     ),
+    "C03": dict(
+        title="No input can crash decoding or any read-only use of a decoded message",
+        stages=[dict(name="crash", shards=S16, timeout={"quick": 1200, "thorough": 7200}),
+                dict(name="checkptr", race=True, shards={"quick": 4, "thorough": 8}, timeout={"quick": 1200, "thorough": 7200}, env={"VERIF_SAMPLE": "8"})],
+        crash_is_violation=True,
+        rule="entry points: dhcpv4.FromBytes, dhcpv4.Options.FromBytes, dhcpv6.FromBytes / MessageFromBytes / RelayMessageFromBytes, dhcpv6.ParseOption for every typed code (discovered at run time), DUIDFromBytes, "
+             "rfc1035label.FromBytes, iana.Archs and every exported dhcpv4 value type's FromBytes, BroadcastRawUDPConn.ReadFrom over scripted frame lists. Inputs: EVERY byte string of length <= 2 per entry point "
+             "(<= 3 for four entry points in the thorough tier); generated valid values of every option type, hand-built ZTP/netboot style messages (vendor class / vendor opts / remote-id / circuit-id / boot file formats "
+             "of each vendor the helper packages know, truncated and malformed variants, relays with and without relay-msg), all of them structure-aware mutated; raw frame lists; a stream of large inputs up to 65507 bytes "
+             "(nested relays, nested IA, option floods, repeated v4 options, pointer fans, item floods). On every accepted value <= 4096 bytes: every exported non-mutating method reachable by a reflective walk (depth <= 4, "
+             "arguments synthesised: none, Duration, option codes, indent, enterprise numbers, nil decoder) plus builders, relay operations, MAC extraction, ztpv4/ztpv6/netboot extractors, and netboot conversations over "
+             "all sequences of 0..3 recently decoded messages. Shape = (entry point, accept|error class, option codes / kinds); non-trivial iff accepted or the error is not 'buffer too short'.",
+        technique="crash monitor: recover() around every entry point and observer call + child process per shard with the current input kept in a MAP_SHARED record (attributes fatal errors) + in-process termination watchdog with solo re-run; second stage under -race (checkptr)",
+        level_text="Any panic, fatal error, abnormal child exit or non-termination is a violation keyed by the first library frame of the stack; evidence reports the number of observer invocations and distinct (type, method) pairs called.",
+        level_note="Go's memory safety turns out-of-bounds accesses into the panics monitored here; the -race stage adds checkptr. Pretty-printing is only exercised on inputs <= 4096 bytes, as the property says.",
+        assumptions=["methods named Set*/Add*/Update*/Del*/Delete*/FromBytes/Unmarshal/Marshal are mutators and not called", "interfaces/netlink/socket functions are outside the statement"],
+        exhaustive_note="all byte strings of length <= 2 for each entry point",
+    ),
 }
